@@ -804,7 +804,9 @@ func scenarios() [][]op {
 			for k := 0; k < 9; k++ {
 				l = append(l, op{K: "Gen", M: 0, Count: 1<<17 + 1}, op{K: "Upd", M: 0}, op{K: "State", M: 0}, op{K: "Read"})
 			}
-			return append(l, op{K: "Gen", M: 0, Count: 1}, op{K: "State", M: 0}, op{K: "Read"})
+			// ... and a successor starts above everything that was granted on the way
+			return append(l, op{K: "Gen", M: 0, Count: 1}, op{K: "State", M: 0}, op{K: "Read"},
+				op{K: "ResetGroup", M: 0}, op{K: "Elect", M: 1}, op{K: "Sync", M: 1}, op{K: "Gen", M: 1, Count: 1}, op{K: "State", M: 1}, op{K: "Read"})
 		}(),
 		// hand-over A -> B -> A inside one process while B moved one hour ahead: A's second SyncTimestamp must start from
 		// the stored window, not from anything A remembers
